@@ -25,7 +25,7 @@ def tag_names(level, n):
     return ['%s.tag%d' % (level, i) for i in range(n)]
 
 
-def tag_predicate_obligation(chk, body, name, literal, negate, arg_order, closure_self, max_tags=None, confirm=None, to_bool=None):
+def tag_predicate_obligation(chk, body, name, literal, negate, arg_order, closure_self, max_tags=None, confirm=None, to_bool=None, invoke=None):
     """body(feature, rule?, scenario) must equal (negated) 'some inherited tag equals `literal`'."""
     max_tags = max_tags if max_tags is not None else (2 if chk.tier == 'thorough' else 1)
     o = chk.add(Obligation(name, 'tag vectors of length 0..%d on scenario, rule (present or absent) and feature; tag contents symbolic' % max_tags))
@@ -47,6 +47,8 @@ def tag_predicate_obligation(chk, body, name, literal, negate, arg_order, closur
                 r = Adt('Option<&gherkin::Rule>', {}, 0)
             vals = {'feature': f, 'rule': r, 'scenario': s}
             args = [vals[k] for k in arg_order]
+            if invoke is not None:
+                return invoke(ex_, args)          # the predicate is whatever value the code installs (closure, fn item, ..)
             if closure_self:
                 args = [Ref(Cell(Adt(body.params[0][1].lstrip('&').strip(), {}, None, None)), ())] + args
             return ex_.call_body(body, args)
